@@ -477,7 +477,14 @@ fn scan() -> Value {
 	json!({"classes": rows, "catalogue": catalogue().len()})
 }
 
+/// now and then the visitors of the members with an even ordinal report another mask (`alt`)
 fn rand_mask(r: &mut StdRng) -> Value {
+	let mut m = rand_mask1(r);
+	if r.gen_bool(0.2) { let a = rand_mask1(r); m["alt"] = a; }
+	m
+}
+
+fn rand_mask1(r: &mut StdRng) -> Value {
 	let all: Vec<(&str, &str)> = LEVELS.iter().flat_map(|(l, fs)| fs.iter().map(move |f| (*l, *f))).collect();
 	let set = |m: &mut Value, lf: (&str, &str), b: bool| m[lf.0][lf.1] = Value::Bool(b);
 	match r.gen_range(0..10) {
